@@ -539,6 +539,7 @@ func ptySignal(out *scenOut, mode, sig, phase string) {
 		return
 	}
 	time.Sleep(30 * time.Millisecond) // the signal handler goroutine has called signal.Notify
+	sizesBefore := 0
 	switch phase {
 	case "in-update":
 		r.pair.master.Write([]byte("b"))
@@ -547,6 +548,7 @@ func ptySignal(out *scenOut, mode, sig, phase string) {
 			return
 		}
 	case "released", "released-then-again":
+		sizesBefore = len(r.sizes())
 		r.pair.master.Write([]byte("e"))
 		if !r.waitLog("exec-running", 3*time.Second) {
 			out.fail(finding{Property: "C18", Class: "harness", What: "child did not reach the exec", Input: desc})
@@ -585,7 +587,11 @@ func ptySignal(out *scenOut, mode, sig, phase string) {
 		}
 		if phase == "released" || phase == "released-then-again" {
 			r.waitLog("exec-done", 2*time.Second)
-			time.Sleep(50 * time.Millisecond)
+			// `exec-done` is written by the command itself, BEFORE the library takes the terminal back; the
+			// size report that RestoreTerminal asks for as its last step says that it has (on a loaded
+			// machine that can take longer than any fixed pause)
+			waitFor(4*time.Second, func() bool { return len(r.sizes()) > sizesBefore })
+			time.Sleep(30 * time.Millisecond)
 		}
 		if phase == "released-then-again" && mode != "nosignals" {
 			// the terminal is restored: signals count again
